@@ -3,7 +3,7 @@
    N, Z, positive and nat stay extracted datatypes). *)
 Require Extraction.
 Require Import ExtrOcamlBasic.
-From LibCSD Require Import Base Bytes VByteDefs LogSeqDefs.
+From LibCSD Require Import Base Bytes VByteDefs LogSeqDefs Spec.
 Extraction Language OCaml.
 Set Extraction Optimize.
 Extraction "model.ml"
@@ -12,4 +12,6 @@ Extraction "model.ml"
   VByteDefs.vb_encode VByteDefs.vb_decode
   LogSeqDefs.get_field LogSeqDefs.set_field LogSeqDefs.set_field_pinned LogSeqDefs.maxVal
   LogSeqDefs.ls_new LogSeqDefs.ls_get LogSeqDefs.ls_set LogSeqDefs.ls_of_list LogSeqDefs.ls_save LogSeqDefs.ls_load
+  Spec.lex_compare Spec.spec_locate Spec.spec_extract Spec.spec_prefix_ids Spec.spec_substr_ids
+  Spec.spec_prefix_strs Spec.spec_substr_strs Spec.spec_table Spec.spec_elements Spec.spec_maxlen Spec.range_of Spec.valid_set_b
   BinNat.N.of_nat BinNat.N.to_nat BinNat.N.add BinNat.N.mul BinNat.N.div BinNat.N.modulo BinNat.N.compare BinNat.N.eqb BinNat.N.ltb.
